@@ -236,7 +236,7 @@ Fixpoint take_digits_rev (s : text) (acc : text) : text :=
   | [] => acc
   end.
 Definition line_time_ns (line : text) : N :=
-  match rev line with
+  match rev_append line [] with      (* = rev line, in linear time (List.rev is quadratic) *)
   | _ :: _ :: r => digits_value (take_digits_rev r [])
   | _ => 0
   end.
